@@ -673,10 +673,30 @@ fn chk_unknown(asy: bool, with_meta: bool, ntiles: u64) -> Result<(), String> {
     let mut b = f.bytes.clone();
     b[0..127].copy_from_slice(&spec::encode_header(&h));
     match std::panic::catch_unwind(|| open(asy, b.clone(), (Bound::Unbounded, Bound::Unbounded)).map(|_| ())) {
-        Err(_) => Err("opening an archive declaring Unknown compression panicked".into()),
-        Ok(Ok(())) => Err(format!("an archive declaring Unknown internal compression opened (metadata present: {with_meta})")),
-        Ok(Err(_)) => Ok(()),
+        Err(_) => return Err("opening an archive declaring Unknown compression panicked".into()),
+        Ok(Ok(())) => return Err(format!("an archive declaring Unknown internal compression opened (metadata present: {with_meta})")),
+        Ok(Err(_)) => {}
     }
+    // ... also when the sections it would have to decode are declared empty
+    for (zero_root, zero_meta) in [(true, false), (true, true), (false, true)] {
+        let mut h2 = h.clone();
+        if zero_root {
+            h2.root_len = 0;
+        }
+        if zero_meta {
+            h2.meta_len = 0;
+        }
+        let mut b2 = b.clone();
+        b2[0..127].copy_from_slice(&spec::encode_header(&h2));
+        for rg in [(Bound::Unbounded, Bound::Unbounded), (Bound::Included(1), Bound::Excluded(1))] {
+            match std::panic::catch_unwind(|| open(asy, b2.clone(), rg).map(|_| ())) {
+                Err(_) => return Err("opening an archive declaring Unknown compression panicked".into()),
+                Ok(Ok(())) => return Err(format!("an archive declaring Unknown internal compression opened (root directory length zeroed: {zero_root}, metadata length zeroed: {zero_meta})")),
+                Ok(Err(_)) => {}
+            }
+        }
+    }
+    Ok(())
 }
 
 pub fn gen_c19(rng: &mut Rng, quick: bool, st: &mut Stats) -> Vec<String> {
@@ -758,6 +778,12 @@ pub fn gen_c19(rng: &mut Rng, quick: bool, st: &mut Stats) -> Vec<String> {
             h.icomp = 0;
             let mut b = f.bytes.clone();
             b[0..127].copy_from_slice(&spec::encode_header(&h));
+            c.push(format!("hist {asy} o:{m}:u_u:{};l;n", hex_bytes(&b)));
+            // the same with the root directory (and the metadata) declared empty
+            let mut h2 = h.clone();
+            h2.root_len = 0;
+            h2.meta_len = 0;
+            b[0..127].copy_from_slice(&spec::encode_header(&h2));
             c.push(format!("hist {asy} o:{m}:u_u:{};l;n", hex_bytes(&b)));
         }
         for comp in ALL_COMP {
